@@ -847,7 +847,7 @@ fn systematic_matches(tier: &str, em: &mut Emitter) {
 
 const RND_CHARS: &[char] = &[
     'a', 'b', 'c', 'A', 'B', '_', '0', '9', ' ', ' ', '-', '.', '!', '@', '\n', '\t', '\u{e9}', '\u{c9}', '\u{130}', '\u{3a3}',
-    '\u{df}', '\u{1F600}', '\u{26a1}', '\u{fe0f}', '\\', '[', ']', '(', ')', '+', '^', '$', '|', '{', '}', '#', '&', '~',
+    '\u{df}', '\u{1F600}', '\u{26a1}', '\u{fe0f}', '\u{e04}', '\u{915}', '\u{800}', '\u{7ff}', '\u{fff}', '\u{1000}', '\u{d7ff}', '\u{e000}', '\u{ffff}', '\u{10000}', '\\', '[', ']', '(', ')', '+', '^', '$', '|', '{', '}', '#', '&', '~',
 ];
 
 fn rnd_string(r: &mut Rng, max: usize, wild: bool) -> String {
@@ -868,7 +868,7 @@ fn rnd_string(r: &mut Rng, max: usize, wild: bool) -> String {
 /// A text made from the pattern: wildcards instantiated, optionally embedded in a context.
 fn instance_of(r: &mut Rng, pat: &str) -> String {
     let mut s = String::new();
-    s.push_str(*r.pick(&["", "", " ", "a", "\u{e9}", "\n", "-", "a ", "b_", "x\u{e9} "]));
+    s.push_str(*r.pick(&["", "", " ", "a", "\u{e9}", "\n", "-", "a ", "b_", "x\u{e9} ", "\u{e04}\u{e38}\u{e13}", "\u{928}\u{92e}", "\u{800}", "\u{fff}", "\u{7ff}", "\u{1000}", "\u{10000}"]));
     for c in pat.chars() {
         match c {
             '*' => s.push_str(&rnd_string(r, 3, false)),
@@ -885,7 +885,7 @@ fn instance_of(r: &mut Rng, pat: &str) -> String {
             }
         }
     }
-    s.push_str(*r.pick(&["", "", " ", "a", "\u{e9}", "\n", "-", " a", "_b", " \u{e9}x"]));
+    s.push_str(*r.pick(&["", "", " ", "a", "\u{e9}", "\n", "-", " a", "_b", " \u{e9}x", "\u{e04}\u{e38}\u{e13}", "\u{928}\u{92e}", "\u{800}", "\u{fff}", "\u{7ff}", "\u{1000}", "\u{10000}"]));
     s
 }
 
@@ -1022,7 +1022,7 @@ fn flatten_stream(tier: &str, r: &mut Rng, em: &mut Emitter) {
 const USERS: &[&str] = &["@me:x.y", "@other:x.y", "@Admin:x.y", "@bot:z.w"];
 const ROOMS: &[&str] = &["!r:x.y", "!R:x.y", "!other:x.y", "!a*:x.y"];
 const BODIES: &[&str] = &[
-    "hello", "hello me", "Hello Me!", "@room look", "me", "meme", "me-too", "some\u{e9}me", "a\nme\nb", "@other:x.y: ping", "other",
+    "hello", "hello me", "Hello Me!", "@room look", "me", "meme", "me-too", "some\u{e9}me", "a\nme\nb", "\u{e04}\u{e38}\u{e13}me", "me\u{928}\u{92e}", "\u{800}me\u{fff}", "\u{7ff}me\u{1000}", "@other:x.y: ping", "other",
     "", "x", "MY NAME", "my name", "my  name", "surname",
 ];
 
